@@ -52,6 +52,12 @@ def main(argv):
     # 1 generate ---------------------------------------------------------------
     gen_ok = True
     if hasattr(plugin, "generate"):
+        # coq/Gen/*.v is shared: a run that regenerates it holds an exclusive lock until it exits, so that a
+        # concurrent run (e.g. a mutant run with another SNAX_REPO) cannot swap the generated model under it
+        import fcntl
+        _genlock = open(vlib.COQ / ".genlock", "w")
+        fcntl.flock(_genlock, fcntl.LOCK_EX)
+        ctx._genlock = _genlock  # keep the descriptor alive for the whole run
         try:
             plugin.generate(ctx)
         except TranslatorError as e:
